@@ -54,6 +54,18 @@ CHECKS = {
         technique="Lean 4 proof (floor/mod algebra, matrix algebra) + exact differential correspondence + metamorphic runs of the real UKF",
         ref="5/C16",
     ),
+    "C14": dict(
+        text="Theorems (Lean 4): for distinct points on or outside the sphere, lineOfSight holds iff every point of the segment is on or outside "
+             "it (ordered-field algebra, all rationals) and is symmetric; cone membership depends only on inner products, hence is invariant under a "
+             "common rotation about the vertical and positive scaling, and reflexive; the rectangular window is reflexive and invariant under a "
+             "common azimuth rotation with arbitrary re-wrapping (north seam); the azimuth mask admits exactly its arc, wrapping or not; over the "
+             "reals, arccos x <= t iff cos t <= x and the limb test arcsin(z/rho) < arcsin(Rl/d) - pi/2 iff the tangent-cone inequality. Tied to the "
+             "code by differential runs of the real predicates (real Radar for the masks) and an independent exact/atan2 geometric oracle.",
+        note=BASE_TB + "numpy norm/arccos/arcsin/arctan2 are library calls (model in algebraic form, equivalence proved over the reals); decisions "
+             "within rounding of a boundary are skipped and counted. The partial-occultation lens-area value is range-checked on samples only (not proved).",
+        technique="Lean 4 proof (ordered-field algebra + real analysis) + differential correspondence + independent geometric oracle",
+        ref="5/C14",
+    ),
 }
 
 PLANNED = {}
